@@ -729,6 +729,10 @@ func genReceiver(prop string) func(tier string, seed uint64, idx int) interface{
 		open := map[uint16]*ex{}
 		var order []uint16 // open exchanges in the order of their PUBLISH
 		inOrder := r.Bool(4, 5)
+		// retained QoS 2 publishes with a subscriber that arrives at some point
+		// of the publisher's script: the message must not reach it before the PUBREL
+		retainQ2 := r.Bool(1, 4)
+		var lateCl *Client
 		n := 3 + r.Intn(14)
 		bulk := r.Bool(1, 2)
 		for i := 0; i < n; i++ {
@@ -759,6 +763,7 @@ func genReceiver(prop string) func(tier string, seed uint64, idx int) interface{
 				x.seq[1]++
 				op := Op{K: "pub", Topic: x.topic(), QoS: 2, PID: id, Size: x.size(), Seq: x.seq[1], NoRel: true, NoWait: r.Bool(1, 2)}
 				op.Dup = r.Bool(1, 6)
+				op.Retain = retainQ2 && r.Bool(2, 3)
 				cl.Ops = append(cl.Ops, op)
 				open[id] = &ex{op: op, open: true}
 				order = append(order, id)
@@ -797,6 +802,15 @@ func genReceiver(prop string) func(tier string, seed uint64, idx int) interface{
 					total += sz
 				}
 			}
+		}
+		if retainQ2 {
+			late := Client{}
+			late.Ops = append(late.Ops, x.connect(2, true), Op{K: "barrier"})
+			for i := r.Intn(8); i > 0; i-- {
+				late.Ops = append(late.Ops, Op{K: "ping"})
+			}
+			late.Ops = append(late.Ops, Op{K: "sub", PID: 7, Filters: []string{"#"}, QoSs: []byte{byte(r.Intn(3))}}, Op{K: "ping"}, Op{K: "barrier"})
+			lateCl = &late
 		}
 		// release what is still open in most runs (oldest first)
 		released := true
@@ -850,10 +864,16 @@ func genReceiver(prop string) func(tier string, seed uint64, idx int) interface{
 			}
 			cl.Ops = append(cl.Ops, Op{K: "shutwr"}, Op{K: "waitdead"}, Op{K: "barrier"})
 			x.sc.Clients = append(x.sc.Clients, cl)
+			if lateCl != nil {
+				x.sc.Clients = append(x.sc.Clients, *lateCl)
+			}
 			return x.sc
 		}
 		cl.Ops = append(cl.Ops, Op{K: "ping"}, Op{K: "barrier"})
 		x.sc.Clients = append(x.sc.Clients, cl)
+		if lateCl != nil {
+			x.sc.Clients = append(x.sc.Clients, *lateCl)
+		}
 		return x.sc
 	}
 }
@@ -1045,6 +1065,10 @@ func genSession(prop string) func(tier string, seed uint64, idx int) interface{}
 					// a will the broker accepts but cannot publish ($-topics are not
 					// published to): the end of the session must not depend on it
 					op.Will = &Will{Topic: "$SYS/will/" + fmt.Sprint(ci), QoS: byte(r.Intn(3)), Size: 8 + r.Intn(20)}
+				} else if r.Bool(1, 5) {
+					// an ordinary will, in a third of the cases with an empty payload
+					// (legal; with the retain flag it clears a retained message)
+					op.Will = &Will{Topic: "will/s" + fmt.Sprint(ci), QoS: byte(r.Intn(3)), Size: []int{0, 8 + r.Intn(20), 8 + r.Intn(20)}[r.Intn(3)], Retain: r.Bool(1, 3)}
 				}
 				cl.Ops = append(cl.Ops, op, Op{K: "ping"})
 				if clean {
@@ -1643,8 +1667,18 @@ func genKeepAlive(prop string) func(tier string, seed uint64, idx int) interface
 		x.alphabet(false)
 		nk := 1 + r.Intn(3)
 		nc := nk + 1
-		x.seq = make([]int, nc)
-		x.pid = make([]int, nc)
+		x.seq = make([]int, nc+1)
+		x.pid = make([]int, nc+1)
+		fed := false
+		// feedSub: the client holds a QoS 0 subscription on which another client
+		// keeps publishing while it is silent - what the broker sends to a client
+		// is not activity of that client
+		feedSub := func(cl *Client, ci int) {
+			if r.Bool(1, 2) {
+				cl.Ops = append(cl.Ops, Op{K: "sub", PID: x.nextPID(ci), Filters: []string{"feed/#"}, QoSs: []byte{0}})
+				fed = true
+			}
+		}
 		w := Client{Role: "witness"}
 		wc := x.connect(0, true)
 		wc.KA = 0 // broker default minimum: far beyond the run
@@ -1681,9 +1715,11 @@ func genKeepAlive(prop string) func(tier string, seed uint64, idx int) interface
 			}
 			switch r.Intn(5) {
 			case 0: // silent from the start
+				feedSub(&cl, ci)
 				cl.Ops = append(cl.Ops, Op{K: "sleep", D: k*2000 + 1500 + r.Intn(3000)})
 			case 1: // traffic, then silence
 				active(1 + r.Intn(6))
+				feedSub(&cl, ci)
 				cl.Ops = append(cl.Ops, Op{K: "sleep", D: k*2000 + 1500 + r.Intn(3000)})
 			case 2: // active throughout, leaves with DISCONNECT or stays
 				active(3 + r.Intn(12))
@@ -1706,6 +1742,16 @@ func genKeepAlive(prop string) func(tier string, seed uint64, idx int) interface
 				active(2 + r.Intn(4))
 			}
 			x.sc.Clients = append(x.sc.Clients, cl)
+		}
+		if fed {
+			fc := Client{}
+			fo := Op{K: "connect", CID: "feeder", Clean: true, KA: 6000}
+			fc.Ops = append(fc.Ops, Op{K: "barrier"}, fo)
+			for i := 0; i < 60; i++ {
+				x.seq[nc]++
+				fc.Ops = append(fc.Ops, Op{K: "sleep", D: 300 + r.Intn(500)}, Op{K: "pub", Topic: "feed/x", QoS: 0, Size: 8 + r.Intn(30), Seq: x.seq[nc], NoWait: true})
+			}
+			x.sc.Clients = append(x.sc.Clients, fc)
 		}
 		return x.sc
 	}
